@@ -18,7 +18,7 @@ pub fn registry(property: &str) -> Option<CheckSpec> {
             level: "exploration",
             parts: vec![
                 Part::new(sim::CompetitionSim, 150_000, 3_000_000),
-                Part::new(real::CompetitionReal, 1_500, 30_000),
+                Part::new(real::CompetitionReal, 2_000, 40_000),
             ],
             assumptions: vec![
                 "the cluster clock is monotone as on Solana (Bank::update_clock never lets unix_timestamp fall below the parent's): stalls, 1 s steps, coarse steps, jumps and extreme forward jumps are generated, backward steps are not".into(),
